@@ -51,11 +51,21 @@ def main() -> int:
             data = json.load(f)
         run.seed = bootstrap.SEED = int(data.get('seed', 0))
         run.tier = bootstrap.TIER = data.get('tier', 'quick')
-        try:
-            mod.replay(run, data)
-        except Inconclusive as exc:
-            run.note_inconclusive(str(exc))
-        return run.finish()
+        os.environ['VERIF_SEED'] = str(run.seed)
+        os.environ['VERIF_TIER'] = run.tier
+        if data.get('engine') == 'uncaught':
+            # the library raised outside any case handler: there is no single case to re-run, so repeat the whole
+            # run with the recorded seed and tier
+            run.replay_mode = False
+            args.replay = None
+        else:
+            try:
+                mod.replay(run, data)
+            except Inconclusive as exc:
+                run.note_inconclusive(str(exc))
+            except Exception as exc:
+                _uncaught(run, exc)
+            return run.finish()
 
     jobs = args.jobs or getattr(mod, 'JOBS', {}).get(bootstrap.TIER, 1)
     jobs = max(1, min(jobs, os.cpu_count() or 1))
@@ -78,14 +88,33 @@ def main() -> int:
         mod.main(run, shard)
     except Inconclusive as exc:
         run.note_inconclusive(str(exc))
-    except Exception:
-        run.note_inconclusive('harness error: ' + traceback.format_exc()[-1500:])
+    except Exception as exc:
+        _uncaught(run, exc)
     finally:
         signal.alarm(0)
     if args.partial:
         run.dump_partial(args.partial)
         return 0
     return run.finish()
+
+
+def _uncaught(run, exc: BaseException) -> None:
+    """An exception no check caught.  Raised INSIDE the library under test (innermost frame under <repo>/src) it is the
+    library's behaviour on an input the workload produced - on the unchanged tree no check lets one escape - so it is a
+    violation with the traceback as witness.  Raised in harness code (a renamed private attribute, a result of another
+    shape than the harness can walk, a bug of the harness) it decides nothing: inconclusive."""
+    tb = exc.__traceback__
+    last = None
+    while tb is not None:
+        last = tb.tb_frame.f_code.co_filename
+        tb = tb.tb_next
+    src = os.path.join(os.path.realpath(bootstrap.REPO), 'src') + os.sep
+    text = traceback.format_exc()[-1500:]
+    if last is not None and os.path.realpath(last).startswith(src):
+        run.violation(f'the library raised {type(exc).__name__}: {exc} (not caught by any case handler; exploration of this shard stopped here)',
+                      witness={'traceback': text}, key=f'library-raises:{type(exc).__name__}', engine='uncaught')
+    else:
+        run.note_inconclusive('harness error: ' + text)
 
 
 def _run_sharded(run, prop: str, jobs: int, budget: int) -> int:
